@@ -165,6 +165,7 @@ func Run(sc *Scenario, obs Observer, final func(r *Runner)) (*Result, error) {
 
 	res := &Result{}
 	idleRounds := 0
+	batchReleases, stalls := 0, 0
 	for r.Steps < sc.MaxSteps {
 		st, strict, ok := gate.WaitQuiescent(150*time.Microsecond, 3, 60*time.Millisecond, 30*time.Second)
 		if !ok {
@@ -173,6 +174,24 @@ func Run(sc *Scenario, obs Observer, final func(r *Runner)) (*Result, error) {
 		}
 		if !strict {
 			r.Heuristic++
+			// A point recognised only by the fallback (no hook event for a while — on a loaded machine a
+			// goroutine may simply not have been scheduled) must not be used to release anything while a
+			// released batch is still on its way to the introducer: the next batch could overtake it and the
+			// release order would no longer be the introduction order the exact-state model assumes.
+			segs := 0
+			for _, k := range gate.IntroOrder() {
+				if k == "segment" {
+					segs++
+				}
+			}
+			if segs < batchReleases {
+				stalls++
+				if stalls > 20000 {
+					res.TimedOut = true
+					break
+				}
+				continue
+			}
 		}
 		if obs != nil {
 			obs(r, st, strict)
@@ -204,6 +223,7 @@ func Run(sc *Scenario, obs Observer, final func(r *Runner)) (*Result, error) {
 			pick = choose(sc.Policy, st.Waiters, sc.G)
 		}
 		if pick.Point == "batch.beforeIntro" {
+			batchReleases++
 			r.mu.Lock()
 			ref, ok := r.current[pick.Actor]
 			if ok {
